@@ -176,18 +176,26 @@ func BaseStart(p Party, task string, prepare ...func(Round) *Error) *Error {
 	return nil
 }
 
+// BaseWrapError wraps an error for a caller that does not hold the party's lock: WrapError reads the
+// current round, which another goroutine may be advancing.
+func BaseWrapError(p Party, err error, culprits ...*PartyID) *Error {
+	p.lock()
+	defer p.unlock()
+	return p.WrapError(err, culprits...)
+}
+
 // an implementation of Update that is shared across the different types of parties (keygen, signing, dynamic groups)
 func BaseUpdate(p Party, msg ParsedMessage, task string) (ok bool, err *Error) {
-	// fast-fail on an invalid message; do not lock the mutex yet
-	if _, err := p.ValidateMessage(msg); err != nil {
-		return false, err
-	}
 	// lock the mutex. need this mtx unlock hook; L108 is recursive so cannot use defer
 	r := func(ok bool, err *Error) (bool, *Error) {
 		p.unlock()
 		return ok, err
 	}
-	p.lock() // data is written to P state below
+	p.lock() // data is written to P state below; the error wrapping in ValidateMessage reads the round
+	// fast-fail on an invalid message
+	if _, err := p.ValidateMessage(msg); err != nil {
+		return r(false, err)
+	}
 	common.Logger.Debugf("party %s received message: %s", p.PartyID(), msg.String())
 	if p.round() != nil {
 		common.Logger.Debugf("party %s round %d update: %s", p.PartyID(), p.round().RoundNumber(), msg.String())
